@@ -4,7 +4,7 @@
    (Sem.v) and the machine model (Machine.v): a group or location action is the same
    action on each member in name order. *)
 From Coq Require Import ZArith String List Bool PrimFloat.
-From Bardolph Require Import Base.PyFloat Gen.Codes Time.TimeSpec Time.TimePattern
+From Bardolph Require Import Base.PyFloat Gen.Codes Time.TimeSpec Time.TimeCore
   Lang.Value Lang.Units0 Lang.World Lang.Regs.
 Open Scope string_scope.
 Open Scope list_scope.
